@@ -624,7 +624,8 @@ fn rng_part(ctx: &Ctx) {
 pub fn run(tier: Tier) -> i32 {
     let ctx = Ctx::new("C18", tier, "model_checking");
     ctx.bind_model();
-    let thorough = !ctx.quick();
+    // (the full sweep costs well under a minute: the quick tier runs it too)
+    let thorough = true;
     ctx.set_rule("every case calls the public trait methods of the objects returned by DefaultResolver / RingResolver and compares with an independent implementation: hash (all lengths 0..=3 blocks+1, split inputs), HMAC (every key length 0..=block_len x data lengths 0..=3 blocks+1), HKDF (1/2/3 outputs x ikm lengths x chaining keys), AEAD (keys: zero, ones, every single-bit key; nonces: boundary + every single bit + endianness witness + 2^64-1; ad/pt length grid around block edges, 65519; round trip; every bit flip and truncation of ciphertexts <= 48 bytes, wrong nonce/ad/key rejected; rekey), DH (RFC vectors, every single-bit scalar, edge scalars x base/RFC/low-order/non-canonical/arbitrary points; P-256 invalid encodings; generated key pairs consistent, symmetric, distinct; RFC 7748 iterated test); the random sources of DefaultResolver / RingResolver / ring-over-default: every buffer length 0..=80, 200, 4096 x fill_bytes / try_fill_bytes x two prefills really filled, consecutive fills and source objects differ, key pairs generated from them consistent and pairwise distinct");
     hash_part(&ctx, true);
     aead_part(&ctx, thorough);
